@@ -13,6 +13,7 @@ use sozu_command::{logging::ansi_palette, ready::Ready};
 use crate::metrics::names;
 use crate::{
     L7ListenerHandler, ListenerHandler, Readiness,
+    protocol::http::parser::Method,
     protocol::mux::{
         BackendStatus, Context, DebugEvent, Endpoint, GlobalStreamId, MuxResult, Position,
         StreamState, forcefully_terminate_answer,
@@ -699,7 +700,20 @@ impl<Front: SocketHandler> ConnectionH1<Front> {
                     if let StreamState::Linked(token) = old_state {
                         remove_backend_stream(&mut context.backend_streams, token, stream_id);
                     }
-                    if stream.context.keep_alive_frontend {
+                    // RFC 9112 §6.3: a response relayed without Content-Length or
+                    // chunked framing (a body that ended with the backend's
+                    // close) is delimited by the close of this connection too,
+                    // whether or not the client asked for `Connection: close`.
+                    let close_delimited = stream.back.body_size == kawa::BodySize::Empty
+                        && stream.context.method != Some(Method::Head)
+                        && !matches!(
+                            stream.back.detached.status_line,
+                            kawa::StatusLine::Response {
+                                code: 100..=199 | 204 | 304,
+                                ..
+                            }
+                        );
+                    if stream.context.keep_alive_frontend && !close_delimited {
                         self.timeout_container.reset();
                         if let StreamState::Linked(token) = old_state {
                             endpoint.end_stream(token, stream_id, context);
